@@ -45,7 +45,7 @@ PROFILE = {"n_atoms": (2, 5), "n_pulses": (1, 3), "dur": (16, 100), "max_steps":
 
 def plan(tier: str) -> dict:
     if tier == "quick":
-        return {"runs": 140, "wall_s": 170, "task_timeout": 400}
+        return {"runs": 280, "wall_s": 170, "task_timeout": 400}
     return {"runs": 2400, "wall_s": 1700, "task_timeout": 1200}
 
 
